@@ -273,6 +273,80 @@ func ruleSubscribeMultiplicity() check.Rule {
 	}
 }
 
+// PARAM-USED: an operator that takes an observable does something with it.
+func ruleObservableParamUsed() check.Rule {
+	return check.Rule{
+		Name: "PARAM-USED",
+		Doc:  "every parameter of observable type (Observable[T], a slice or variadic of them) of an exported operator constructor, and of the application function it returns, is referenced in the body (subscribed, passed on, ranged over): an operator that never touches one of its inputs - for instance after the statement that subscribed the notifier was dropped - cannot implement its definition",
+		Run: func(c *check.Ctx) {
+			m := c.M
+			isObs := func(t types.Type) bool {
+				for i := 0; i < 3; i++ {
+					if model.IsNamed(t, m.Obj.Observable) || model.IsNamed(t, m.Obj.Connectable) || model.IsNamed(t, m.Obj.Subject) {
+						return true
+					}
+					switch u := t.Underlying().(type) {
+					case *types.Slice:
+						t = u.Elem()
+					case *types.Array:
+						t = u.Elem()
+					default:
+						return false
+					}
+				}
+				return false
+			}
+			for _, p := range m.Pkgs {
+				if !c.ArmedPkg(p.PkgPath) {
+					continue
+				}
+				info := p.TypesInfo
+				for _, f := range p.Syntax {
+					for _, d := range f.Decls {
+						fd, ok := d.(*ast.FuncDecl)
+						if !ok || fd.Body == nil || fd.Recv != nil || !fd.Name.IsExported() || check.IsControlName(fd.Name.Name) {
+							continue
+						}
+						// the constructor's own parameters and those of function literals it returns
+						type fnp struct {
+							ft   *ast.FuncType
+							body *ast.BlockStmt
+						}
+						fns := []fnp{{fd.Type, fd.Body}}
+						ast.Inspect(fd.Body, func(x ast.Node) bool {
+							if l, ok := x.(*ast.FuncLit); ok && m.IsAppLit(info, l) {
+								fns = append(fns, fnp{l.Type, l.Body})
+							}
+							return true
+						})
+						for _, fn := range fns {
+							for _, pv := range model.FlattenParams(info, fn.ft.Params) {
+								if pv == nil || pv.Name() == "_" || pv.Name() == "" || !isObs(pv.Type()) {
+									continue
+								}
+								c.Inc("observable_params", 1)
+								used := false
+								ast.Inspect(fn.body, func(x ast.Node) bool {
+									if id, ok := x.(*ast.Ident); ok && info.Uses[id] == types.Object(pv) {
+										used = true
+									}
+									return !used
+								})
+								key := fmt.Sprintf("%s.%s/param-%s-used", model.ShortPkg(p.PkgPath), fd.Name.Name, pv.Name())
+								if used {
+									c.OK(key, pv.Pos(), "the observable parameter is used")
+								} else {
+									c.Violation(key, pv.Pos(), "observable parameter %q of %s is never used: the operator ignores one of its inputs", pv.Name(), fd.Name.Name)
+								}
+							}
+						}
+					}
+				}
+			}
+		},
+	}
+}
+
 // FreshPerApplication: slices built at application time from operator arguments are fresh.
 func ruleFreshPerApplication() check.Rule {
 	return check.Rule{
@@ -367,7 +441,7 @@ func C12() *check.Property {
 		Title:    "Pipelines are reusable recipes: subscriptions and operator values independent",
 		Patterns: cat(CorePatterns, PluginPkgs, []string{PromPkg}, RatePkgs),
 		Scope:    []string{ro},
-		Rules:    []check.Rule{ruleStateLevel(), ruleLazySource(), ruleSubscribeMultiplicity(), ruleFreshPerApplication()},
+		Rules:    []check.Rule{ruleStateLevel(), ruleLazySource(), ruleSubscribeMultiplicity(), ruleFreshPerApplication(), ruleObservableParamUsed()},
 		Explanation: "Static discipline check (AST + types). Operators are closures at three levels: constructor (once per operator value), application literal func(source) (once per pipeline) " +
 			"and subscribe closure (once per subscription). STATE-LEVEL proves that no write inside a deeper level targets a variable declared at an outer level, so every subscription starts from fresh state and " +
 			"applications do not influence each other; LAZY-SOURCE proves no Subscribe/Connect/Collect runs outside a subscribe closure; SUBSCRIBE-MULTIPLICITY and FRESH-PER-APPLICATION cover at-most-once subscription of " +
